@@ -154,6 +154,9 @@ struct ExprGen {
     // The relative order of the attributes of one element is implementation-dependent (the native tree keeps the written order, a Xerces
     // DOM sorts by name), so a type-correct expression uses one attribute name throughout: no node-set can then hold two attributes of an element.
     std::string attr;
+    // Cost: a step over a whole-document axis multiplies the work of everything nested in and after it (no de-duplication between steps),
+    // so a type-correct expression gets three such steps in all; once they are spent only child / attribute / self / parent steps are drawn.
+    int heavy = 3;
     ExprGen(Rng& g_, bool wild_, const std::vector<std::string>& names_) : g(g_), wild(wild_), names(names_) { static const std::vector<std::string> an = { "id", "k", "v", "rk", "ref", "k", "id" }; attr = g.pick(an); }
     std::string nm() { return names.empty() ? "a" : names[g.below(names.size())]; }
     std::string nodeTest() {
@@ -165,15 +168,17 @@ struct ExprGen {
         if (k == 0) return "."; if (k == 1) return "..";
         if (k == 2) { static const std::vector<std::string> at = { "@id", "@k", "@v", "@*", "@rk", "@ref", "@p1:x", "@xml:lang" }; return wild ? g.pick(at) : "@" + attr; }
         if (k < 6) s = nodeTest();
-        else { std::string ax = wild && g.chance(1, 20) ? std::string("sideways") : g.pick(axes); s = ax + "::" + (ax == "attribute" ? (wild ? (g.chance(1, 2) ? std::string("*") : std::string("k")) : attr) : nodeTest()); }
+        else { std::string ax = wild && g.chance(1, 20) ? std::string("sideways") : g.pick(axes);
+            if (!wild) { static const std::vector<std::string> light = { "child", "parent", "self", "attribute", "following-sibling", "preceding-sibling" }; const bool isHeavy = ax != "child" && ax != "parent" && ax != "self" && ax != "attribute"; if (isHeavy) { if (heavy > 0) --heavy; else ax = g.pick(light); } }
+            s = ax + "::" + (ax == "attribute" ? (wild ? (g.chance(1, 2) ? std::string("*") : std::string("k")) : attr) : nodeTest()); }
         int np = d > 0 ? (int)g.below(3) : 0; if (np == 2 && !g.chance(1, 3)) np = 1;
         for (int i = 0; i < np; ++i) s += "[" + pred(d - 1) + "]";
         return s;
     }
     std::string pred(int d) { unsigned k = (unsigned)g.below(6); if (k == 0) return std::to_string(g.range(1, 4)); if (k == 1) return "last()"; if (k == 2) return "position() " + std::string(g.chance(1, 2) ? "&lt; " : "&gt; ") + std::to_string(g.range(1, 3)); if (k == 3) return nset(d); return boolean(d); }
     std::string path(int d) {
-        std::string s; unsigned k = (unsigned)g.below(8); if (k == 0) s = "/"; else if (k < 3) s = "//"; else if (k == 3) s = "/doc/";
-        int n = (int)g.range(1, 3); for (int i = 0; i < n; ++i) { if (i) s += g.chance(1, 4) ? "//" : "/"; s += step(d); }
+        std::string s; unsigned k = (unsigned)g.below(8); if (k == 0) s = "/"; else if (k < 3) { if (wild || heavy > 0) { s = "//"; --heavy; } } else if (k == 3) s = "/doc/";
+        int n = (int)g.range(1, 3); for (int i = 0; i < n; ++i) { if (i) { if (g.chance(1, 4) && (wild || heavy > 0)) { s += "//"; --heavy; } else s += "/"; } s += step(d); }
         return s;
     }
     std::string nset(int d) {
@@ -243,6 +248,7 @@ struct ExprGen {
     }
     // returns (expression, kind) with kind N | D | S | B
     std::pair<std::string, char> make(int depth) {
+        heavy = 3;
         if (wild && g.chance(1, 3)) return { wildExpr(depth), 'W' };
         switch (g.below(4)) { case 0: return { nset(depth), 'N' }; case 1: return { num(depth), 'D' }; case 2: return { str(depth), 'S' }; default: return { boolean(depth), 'B' }; }
     }
@@ -403,7 +409,7 @@ struct SSGen {
             for (int i = 0; i < 4; ++i) { auto e = eg.make(3); std::string show = e.second == 'N' ? "<xsl:value-of select=\"count(" + e.first + ")\"/>:<xsl:for-each select=\"(" + e.first + ")[position() &lt; 6]\"><xsl:value-of select=\"concat(name(), '=', @id, ' ')\"/></xsl:for-each>" : vo("string(" + e.first + ")");
                 body += "{" + show + "}"; if (i < 2) rootb += "{" + show + "}"; }
             // (not on documents with more than 120 elements: a path of several reverse-axis steps costs the product of the intermediate node-set sizes)
-            perNode += "<xsl:if test=\"$G1 &lt; 120 and count(preceding::*) mod 4 = 0\">" + o("randexpr", body) + "</xsl:if>"; rootBody += "<xsl:if test=\"$G1 &lt; 120\"><o f=\"randexpr\" n=\"/\">" + rootb + "</o></xsl:if>"; }
+            perNode += "<xsl:if test=\"$G1 &lt; 90 and count(preceding::*) mod 4 = 0\">" + o("randexpr", body) + "</xsl:if>"; rootBody += "<xsl:if test=\"$G1 &lt; 90\"><o f=\"randexpr\" n=\"/\">" + rootb + "</o></xsl:if>"; }
         // more named decimal formats with different symbols than the formatter cache holds (10)
         if (on("manydf")) { std::string uses; static const char* const seps = ",:!_~^`|@$?="; for (int i = 0; i < 12; ++i) { std::string n = "mdf" + std::to_string(i); top += "<xsl:decimal-format name=\"" + n + "\" decimal-separator=\"" + std::string(1, seps[i]) + "\" grouping-separator=\"" + std::string(1, seps[(i + 5) % 12]) + "\"/>"; uses += vo("format-number(@v * 1000.5 + " + std::to_string(i) + ", '#" + std::string(1, seps[(i + 5) % 12]) + "##0" + std::string(1, seps[i]) + "0', '" + n + "')") + " "; }
             perNode += "<xsl:if test=\"count(preceding::*) mod 3 = 0\">" + o("manydf", uses) + "</xsl:if>"; }
